@@ -642,8 +642,33 @@ class Expander:
                 return anf.logaddexp_(self.need_r(self.eval(args[0], env)), self.need_r(self.eval(args[1], env)))
             if fname in NUMPY_ID or fname in ("copy", "deepcopy"):
                 return self.eval(args[0], env)
-            if fname == "power":
+            if fname in ("power", "float_power") and len(args) == 2:
                 return self.need_r(self.eval(args[0], env)).pow(self.need_r(self.eval(args[1], env)))
+            # function forms of the arithmetic operators and a few elementary identities (the same values, spelled differently)
+            if fname in ("add", "subtract", "multiply", "divide", "true_divide") and len(args) == 2 and not node.keywords:
+                a_, b_ = self.need_r(self.eval(args[0], env)), self.need_r(self.eval(args[1], env))
+                return {"add": lambda: a_ + b_, "subtract": lambda: a_ - b_, "multiply": lambda: a_ * b_,
+                        "divide": lambda: a_.div(b_), "true_divide": lambda: a_.div(b_)}[fname]()
+            if fname in ("negative", "square", "cosh", "sinh", "log2", "log10", "exp2", "hypot", "positive") and not node.keywords:
+                vs = [self.need_r(self.eval(a, env)) for a in args]
+                if fname == "negative" and len(vs) == 1:
+                    return -vs[0]
+                if fname == "positive" and len(vs) == 1:
+                    return vs[0]
+                if fname == "square" and len(vs) == 1:
+                    return vs[0] * vs[0]
+                if fname == "cosh" and len(vs) == 1:
+                    return (anf.exp_(vs[0]) + anf.exp_(-vs[0])).div(R.const(2))
+                if fname == "sinh" and len(vs) == 1:
+                    return (anf.exp_(vs[0]) - anf.exp_(-vs[0])).div(R.const(2))
+                if fname == "log2" and len(vs) == 1:
+                    return anf.log_(vs[0]).div(anf.log_(R.const(2)))
+                if fname == "log10" and len(vs) == 1:
+                    return anf.log_(vs[0]).div(anf.log_(R.const(10)))
+                if fname == "exp2" and len(vs) == 1:
+                    return anf.exp_(vs[0] * anf.log_(R.const(2)))
+                if fname == "hypot" and len(vs) == 2:
+                    return anf.sqrt_(vs[0] * vs[0] + vs[1] * vs[1])
             if fname in ("zeros", "zeros_like"):
                 return R.const(0)
             if fname in ("ones", "ones_like"):
